@@ -885,6 +885,7 @@ def exp_val(t: Term) -> "Val":
     mu: dict[Term, int] = {}
     coef = T.ONE
     ites: list[Term] = []
+    sums: list[Term] = []
     for a in addends:
         if a.op == "const":
             c = float(a.data)
@@ -912,6 +913,10 @@ def exp_val(t: Term) -> "Val":
         if core.op == "ite" and q.denominator == 1:
             ites.append(a)
             continue
+        if core.op == "add" and q.denominator == 1 and any(x.op == "ite" or _split_coef(x)[1].op == "ite" for x in core.args):
+            # q * (s1 + s2 + ...) with table lookups among the s_i: exp factors over the sum
+            sums.extend(T.mul(T.const(q), x) for x in core.args)
+            continue
         if q.denominator == 1:
             at = CTX.E(core)
             mu[at] = mu.get(at, 0) + int(q)
@@ -935,6 +940,8 @@ def exp_val(t: Term) -> "Val":
         q = T.const(q)
         br = Val.where(Val("bool", c), exp_val(T.mul(q, x)), exp_val(T.mul(q, y)))
         r = r * br
+    for a in sums:
+        r = r * exp_val(a)
     return r
 
 
